@@ -73,19 +73,8 @@ def free_tainted(fn):
     return out
 
 
-def check(repo, rep, tier):
-    rep.rule('R18.1', 'no store / delete / mutating method on a value that may be (or contain) a caller-visible object, in any printer function')
-    rep.rule('R18.2', 'Tree stores attributes only in __init__; printers write no module-level state')
-    # embedded positive example
-    ex = ast.parse(POSITIVE_EXAMPLE)
-    from ..core import attach_parents
-    attach_parents(ex)
-    fn = ex.body[0]
-    found = effects.mutations(fn, ['trees'])
-    lines = sorted({n.lineno for n, _, _ in found})
-    if lines != [9]:
-        raise AnalysisError('embedded positive example: expected exactly the two mutations on line 9, analysis reports lines %s' % lines)
-    rep.ok('R18.1', 'sa/checks/c18.py POSITIVE_EXAMPLE', 'the analysis flags token[..] = token.pop(..) on an aliased token and not the same edit on dict(token)')
+def r_printers_pure(repo, rep, R1='R18.1', R2='R18.2', consequence='a later rendering sees the changed object'):
+    """no printer function stores into, deletes from or calls a mutating method on a value that may be (or contain) an object of the parse result"""
     n = 0
     fns = printer_functions(repo)
     # private module-level helpers (a closure moved out of its function) get the taint of their arguments at the call
@@ -141,15 +130,32 @@ def check(repo, rep, tier):
         mod, fn, tainted, muts = results[id(fn)]
         w = '%s:%s %s' % (mod.rel, fn.lineno, qualname_of(fn))
         if not muts:
-            rep.ok('R18.1', w, '%s modifies no caller-visible object (tainted: %s)' % (qualname_of(fn), sorted(tainted)))
+            rep.ok(R1, w, '%s modifies no caller-visible object (tainted: %s)' % (qualname_of(fn), sorted(tainted)))
         for node, tgt, what in muts:
-            rep.violation('R18.1', '%s:%s %s' % (mod.rel, node.lineno, qualname_of(fn)),
+            rep.violation(R1, '%s:%s %s' % (mod.rel, node.lineno, qualname_of(fn)),
                           '%s:%s:mutates:%s' % (mod.rel, qualname_of(fn), show(tgt)[:60].split('(')[0] + ':' + what.split('(')[0]),
-                          '%s modifies an object of the parse result: `%s` (%s) -- a later rendering sees the changed object'
-                          % (qualname_of(fn), src(node)[:70], what))
+                          '%s modifies an object of the parse result: `%s` (%s) -- %s'
+                          % (qualname_of(fn), src(node)[:70], what, consequence))
         for g in [x for x in ast.walk(fn) if isinstance(x, ast.Global)]:
-            rep.violation('R18.2', '%s:%s %s' % (mod.rel, g.lineno, qualname_of(fn)), '%s:%s:global' % (mod.rel, qualname_of(fn)),
+            rep.violation(R2, '%s:%s %s' % (mod.rel, g.lineno, qualname_of(fn)), '%s:%s:global' % (mod.rel, qualname_of(fn)),
                           'writes module state through `global %s`' % ', '.join(g.names))
+    return n
+
+
+def check(repo, rep, tier):
+    rep.rule('R18.1', 'no store / delete / mutating method on a value that may be (or contain) a caller-visible object, in any printer function')
+    rep.rule('R18.2', 'Tree stores attributes only in __init__; printers write no module-level state')
+    # embedded positive example
+    ex = ast.parse(POSITIVE_EXAMPLE)
+    from ..core import attach_parents
+    attach_parents(ex)
+    fn = ex.body[0]
+    found = effects.mutations(fn, ['trees'])
+    lines = sorted({n.lineno for n, _, _ in found})
+    if lines != [9]:
+        raise AnalysisError('embedded positive example: expected exactly the two mutations on line 9, analysis reports lines %s' % lines)
+    rep.ok('R18.1', 'sa/checks/c18.py POSITIVE_EXAMPLE', 'the analysis flags token[..] = token.pop(..) on an aliased token and not the same edit on dict(token)')
+    n = r_printers_pure(repo, rep)
     rep.floor('printer functions analysed', n, 35)
     # ... nor through a setter of another module: functions of the package that rebind a module-level name (`global x;
     # x = ..`, e.g. depccg.lang.set_global_language_to) change what every later rendering -- and the readers -- see
